@@ -626,7 +626,7 @@ struct C20 : Scenario {
             pl = q;
         }
         else if (fault == "truncated_key") { write_cfg(rc.workdir + "/parent.cfg", parent + "GridSi", plan.geti("filefmt", 0)); expect_fail_status = true; }
-        else if (fault == "unknown_key") { write_cfg(rc.workdir + "/parent.cfg", parent + "NoSuchOption" + std::to_string(farg % 10) + "=1\n", plan.geti("filefmt", 0)); expect_fail_status = true; }
+        else if (fault == "unknown_key") { write_cfg(rc.workdir + "/parent.cfg", parent + (farg % 4 == 3 ? std::string("config=other.cfg\n") : "NoSuchOption" + std::to_string(farg % 10) + "=1\n"), plan.geti("filefmt", 0)); expect_fail_status = true; }
         else if (fault == "malformed_value" || fault == "malformed_alias") {
             // a key that is not on the command line and not already in the file
             std::vector<const Opt*> cand;
